@@ -836,6 +836,7 @@ func generate(r *lib.Run) {
 	r.Stat("malformed.panics", malformedStats.panics)
 	if malformedSample != "" {
 		r.Sample(malformedSample)
+		r.Viol("c10-rejected-frame-retained", malformedSample, "")
 	}
 	if malformedPanic != "" {
 		r.Sample("malformed frame made the library panic (same in both runs; C08 matter): " + malformedPanic)
